@@ -49,6 +49,7 @@ func runC06(c *Ctx) {
 	phase("sm-random", c06SmRandom)
 	phase("sm-delim", c06SmDelim)
 	phase("sm-depth", c06SmDepth)
+	phase("namespace", c06NamespacePredicate)
 	phase("enc-scripts", c06EncAll)
 	phase("enc-depth", c06EncDepth)
 }
@@ -401,13 +402,17 @@ func c06SmDepth(c *Ctx) {
 // encoder: calls, options, driving the implementation
 
 type c06Call struct {
-	tok  bool
-	kind byte   // for tokens: n f t " 0 { } [ ]
-	data []byte // string contents / number text / raw value
-	num  jsontext.Token // the number token whose rendered text is data
+	tok   bool
+	kind  byte           // for tokens: n f t " 0 { } [ ]
+	data  []byte         // string contents / number text / raw value
+	num   jsontext.Token // the number token whose rendered text is data
+	reset bool           // Encoder.Reset(fresh writer, same options)
 }
 
 func (k c06Call) wire() string {
+	if k.reset {
+		return "R"
+	}
 	if !k.tok {
 		return "V:" + hx(k.data)
 	}
@@ -421,12 +426,15 @@ func (k c06Call) wire() string {
 }
 
 func (k c06Call) String() string {
+	if k.reset {
+		return "Reset"
+	}
 	if !k.tok {
-		return fmt.Sprintf("V(%q)", k.data)
+		return fmt.Sprintf("V(%q)", c06Short(k.data))
 	}
 	switch k.kind {
 	case '"':
-		return fmt.Sprintf("S(%q)", k.data)
+		return fmt.Sprintf("S(%q)", c06Short(k.data))
 	case '0':
 		return fmt.Sprintf("N(%s)", k.data)
 	}
@@ -459,6 +467,14 @@ func (k c06Call) token() jsontext.Token {
 	return jsontext.Token{}
 }
 
+// c06Short abbreviates long runs for reports (the exact bytes are in input_hex).
+func c06Short(b []byte) string {
+	if len(b) <= 80 {
+		return string(b)
+	}
+	return fmt.Sprintf("%s…(%d bytes)…%s", b[:30], len(b), b[len(b)-30:])
+}
+
 func c06T(kind byte, data string) c06Call { return c06Call{tok: true, kind: kind, data: []byte(data)} }
 func c06V(raw string) c06Call             { return c06Call{data: []byte(raw)} }
 
@@ -472,7 +488,7 @@ type c06Opts struct {
 	opts []jsontext.Options
 	// effective values, read back from the encoder
 	allowDup, allowBadUTF8, multiline, spColon, spComma, html, js bool
-	indent, prefix                                               string
+	indent, prefix                                                string
 }
 
 func (o *c06Opts) wire() string {
@@ -641,7 +657,10 @@ func c06Run(c *Ctx, o *c06Opts, script []c06Call, checkNoop bool) (steps []c06St
 	for i, call := range script {
 		var err error
 		if p := guard(func() {
-			if call.tok {
+			if call.reset {
+				w = &c06Writer{}
+				e.Reset(w, o.opts...)
+			} else if call.tok {
 				err = e.WriteToken(call.token())
 			} else {
 				err = e.WriteValue(jsontext.Value(call.data))
@@ -668,6 +687,9 @@ func c06Run(c *Ctx, o *c06Opts, script []c06Call, checkNoop bool) (steps []c06St
 }
 
 func c06CallOp(k c06Call) string {
+	if k.reset {
+		return "Reset"
+	}
 	if k.tok {
 		return "WriteToken"
 	}
@@ -1028,6 +1050,10 @@ func c06FixUTF8(s []byte) []byte {
 
 // accept decides whether the call keeps the token stream a viable prefix; on success it updates the state.
 func (r *c06Ref) accept(call c06Call) bool {
+	if call.reset {
+		*r = c06Ref{o: r.o}
+		return true
+	}
 	var cur *c06Frame
 	if len(r.frames) > 0 {
 		cur = r.frames[len(r.frames)-1]
@@ -1559,6 +1585,7 @@ func c06EncAll(c *Ctx) {
 		m := c06Mutate(r, v)
 		jobs = append(jobs, c06Job{o, []c06Call{c06V(v), c06V(m), c06T('[', ""), c06V(v), c06V(m), c06V(v), c06T('{', ""), c06T('"', "k"), c06V(m), c06V(v), c06T('}', ""), c06T(']', "")}, "raw-value-layout"})
 	}
+	jobs = append(jobs, c06NamespaceScripts(c, r, opts, extra)...)
 	c.Note("enc: %d scripts in total", len(jobs))
 	c06Par(c, len(jobs), 1500, func(or *Oracle, lo, hi, w int) { c06Check(c, or, jobs[lo:hi]) })
 }
@@ -1633,6 +1660,230 @@ func c06EncDepth(c *Ctx) {
 				}
 				c.Violate("corr-enc-depth", "Encoder", nil, d)
 			}
+		}
+	}
+}
+
+// ---------------------------------------------------------------------------------------------
+// long names / many names: the duplicate-name bookkeeping must not depend on how many or how long the
+// names are (the implementation switches from a linear scan to a map above 64 names or 1024 bytes of names),
+// and never on what an EARLIER object at the same depth contained.
+
+// c06Name is the i-th of a family of distinct names of (at least) the given length.
+func c06Name(i, length int, flavour int) string {
+	s := strconv.Itoa(i)
+	switch flavour {
+	case 1:
+		s += "é" // not a "simple string": takes the AppendUnquote path
+	case 2:
+		s += "\"" // needs escaping
+	}
+	for len(s) < length {
+		s += "x"
+	}
+	return s
+}
+
+// c06RawName is the JSON literal of a name; respell writes its last 'x' as an escape (same name, other spelling).
+func c06RawName(n string, respell bool) []byte {
+	q := c06Quote(nil, []byte(n), &c06Opts{})
+	if respell && len(n) > 0 && n[len(n)-1] == 'x' {
+		q = append(append(q[:len(q)-2:len(q)-2], `x`...), '"')
+	}
+	return q
+}
+
+func c06RawObject(names []string, respell bool) string {
+	sb := []byte{'{'}
+	for i, n := range names {
+		if i > 0 {
+			sb = append(sb, ',')
+		}
+		sb = append(append(sb, c06RawName(n, respell)...), ':', '0')
+	}
+	return string(append(sb, '}'))
+}
+
+func c06TokObject(names []string) []c06Call {
+	s := []c06Call{c06T('{', "")}
+	for _, n := range names {
+		s = append(s, c06T('"', n), c06T('n', ""))
+	}
+	return append(s, c06T('}', ""))
+}
+
+// c06NamespaceScript: a first object with n names of the given length (written by tokens or as one raw value),
+// an attempt to repeat each of a few names inside it (must be rejected unless duplicates are allowed), then
+// objects that re-use its names in every position where the implementation recycles a namespace slot:
+// the next top-level value, siblings in an array, a nested object, and after Encoder.Reset — by tokens and raw.
+func c06NamespaceScript(n, length, flavour int, firstRaw bool, o *c06Opts, r *rand.Rand) []c06Call {
+	names := make([]string, n)
+	for i := range names {
+		names[i] = c06Name(i, length, flavour)
+	}
+	pick := func() []string { // a few names of the first object: first, last, one in the middle, one fresh
+		p := []string{names[0], names[n-1], names[r.IntN(n)], "fresh"}
+		r.Shuffle(len(p), func(i, j int) { p[i], p[j] = p[j], p[i] })
+		return p
+	}
+	var s []c06Call
+	first := func() {
+		if firstRaw {
+			s = append(s, c06V(c06RawObject(names, false)))
+			return
+		}
+		s = append(s, c06T('{', ""))
+		for i, nm := range names {
+			s = append(s, c06T('"', nm), c06T('n', ""))
+			if i == n/2 || i == n-1 {
+				s = append(s, c06T('"', names[r.IntN(i+1)]))                      // duplicate inside the same object
+				s = append(s, c06V(string(c06RawName(names[r.IntN(i+1)], true)))) // duplicate as a raw, re-spelled name
+			}
+		}
+		s = append(s, c06T('}', ""))
+	}
+	followups := func() {
+		s = append(s, c06TokObject(pick())...)                             // next top-level value, tokens
+		s = append(s, c06V(c06RawObject(names, false)))                    // raw, all names again
+		s = append(s, c06V(c06RawObject(pick(), true)))                    // raw, escaped spelling
+		s = append(s, c06V(c06RawObject(append(pick(), names[0]), false))) // raw with a real duplicate
+		s = append(s, c06T('[', ""))                                       // siblings
+		s = append(s, c06TokObject(names)...)
+		s = append(s, c06TokObject(pick())...)
+		s = append(s, c06V(c06RawObject(pick(), false)))
+		s = append(s, c06T('{', ""), c06T('"', names[0])) // nested: {"n0": {names...}, "n1": {n0...}}
+		s = append(s, c06TokObject(names)...)
+		s = append(s, c06T('"', names[n-1]))
+		s = append(s, c06TokObject(pick())...)
+		s = append(s, c06T('"', names[0])) // duplicate of the outer object's own name
+		s = append(s, c06T('}', ""), c06T(']', ""))
+	}
+	first()
+	followups()
+	s = append(s, c06T('{', ""), c06T('"', names[0])) // left open across the Reset
+	s = append(s, c06Call{reset: true})
+	s = append(s, c06TokObject(pick())...)
+	first()
+	s = append(s, c06Call{reset: true})
+	followups()
+	return s
+}
+
+func c06NamespaceScripts(c *Ctx, r *rand.Rand, opts, extra []*c06Opts) []c06Job {
+	var jobs []c06Job
+	type cfg struct{ n, length int }
+	// bytes threshold only (<= 64 names, > 1024 bytes), count threshold only (> 64 names, < 1024 bytes), both, neither
+	cfgs := []cfg{{2, 1100}, {3, 1100}, {1, 1100}, {3, 600}, {5, 300}, {4, 256}, {5, 256}, {64, 17}, {70, 6}, {140, 6}, {65, 5}, {66, 5}, {140, 16}, {3, 16}, {64, 8}}
+	sets := []*c06Opts{opts[0], opts[3], opts[1], extra[3]}
+	for _, cf := range cfgs {
+		for _, firstRaw := range []bool{false, true} {
+			for oi, o := range sets {
+				if oi >= 2 && (cf.n > 70 || firstRaw) {
+					continue
+				}
+				jobs = append(jobs, c06Job{o, c06NamespaceScript(cf.n, cf.length, 0, firstRaw, o, r), "namespace-thresholds"})
+			}
+		}
+	}
+	for i, n := 0, c.N(60, 3000); i < n; i++ {
+		var cf cfg
+		switch r.IntN(3) {
+		case 0: // around the byte threshold
+			cf.n = 1 + r.IntN(8)
+			cf.length = 900/cf.n + r.IntN(400)
+		case 1: // around the count threshold
+			cf.n = 60 + r.IntN(12)
+			cf.length = 4 + r.IntN(14)
+		default:
+			cf.n = 1 + r.IntN(150)
+			cf.length = 4 + r.IntN(40)
+		}
+		o := sets[r.IntN(2)]
+		jobs = append(jobs, c06Job{o, c06NamespaceScript(cf.n, cf.length, r.IntN(3), r.IntN(2) == 0, o, r), "namespace-random"})
+	}
+	return jobs
+}
+
+// c06NamespacePredicate drives one objectNamespace (hook VerifNamespace) with inserts of short and long names,
+// removeLast and reset, and compares every answer with a Go map: insert reports true iff the name is new
+// since the last reset, whatever happened before the reset and whichever lookup mode is active.
+func c06NamespacePredicate(c *Ctx) {
+	r := c.SubRng(603)
+	for it, n := 0, c.N(400, 20000); it < n; it++ {
+		var ns jsontext.VerifNamespace
+		ref := []string{}
+		has := func(s string) bool {
+			for _, x := range ref {
+				if x == s {
+					return true
+				}
+			}
+			return false
+		}
+		length := []int{3, 8, 17, 120, 300, 600, 1100}[r.IntN(7)]
+		var trace []string
+		sawMap := false
+		for step, steps := 0, 20+r.IntN(200); step < steps; step++ {
+			var op string
+			bad := false
+			if p := guard(func() {
+				switch k := r.IntN(20); {
+				case k == 0:
+					ns.Reset()
+					ref = ref[:0]
+					op = "reset"
+				case k == 1 && len(ref) > 0:
+					ns.RemoveLast()
+					ref = ref[:len(ref)-1]
+					op = "removeLast"
+				default:
+					name := c06Name(r.IntN(90), length, r.IntN(3))
+					if r.IntN(6) == 0 {
+						name = c06Name(r.IntN(90), 3, 0)
+					}
+					want := !has(name)
+					var got bool
+					switch r.IntN(3) {
+					case 0:
+						got = ns.InsertUnquoted([]byte(name))
+					case 1:
+						got = ns.InsertQuoted(c06Quote(nil, []byte(name), &c06Opts{}), false)
+					default:
+						if strings.ContainsAny(name, "\"é") {
+							got = ns.InsertQuoted(c06Quote(nil, []byte(name), &c06Opts{}), false)
+						} else {
+							got = ns.InsertQuoted([]byte(`"`+name+`"`), true)
+						}
+					}
+					if want {
+						ref = append(ref, name)
+					}
+					op = fmt.Sprintf("insert(%s)=%v", c06Short([]byte(name)), got)
+					bad = got != want
+				}
+				if ns.Length() != len(ref) {
+					bad = true
+					op += fmt.Sprintf(" length=%d want %d", ns.Length(), len(ref))
+				}
+				sawMap = sawMap || ns.UsesMap()
+			}); p != nil {
+				c.Panic("objectNamespace", nil, p, map[string]any{"trace": trace, "op": op})
+				break
+			}
+			trace = append(trace, op)
+			if bad {
+				if len(trace) > 12 {
+					trace = trace[len(trace)-12:]
+				}
+				c.Violate("namespace-set", "objectNamespace.insert", []byte(strings.Join(trace, ";")), map[string]any{"last_ops": trace, "name_length": length, "map_mode_seen": sawMap})
+				break
+			}
+		}
+		c.Case(fmt.Sprintf("ns:%d", it), true)
+		if sawMap {
+			c.Hit("namespace/map-mode-sequences")
+		} else {
+			c.Hit("namespace/linear-mode-sequences")
 		}
 	}
 }
